@@ -161,11 +161,20 @@ func (p *parser) parseBinaryExpr(left Node) Node {
 	if binaryExp.Right == nil {
 		return nil // previous error
 	}
-	if expType == EMPTY_ARRAY && binaryExp.Op == OP_PLUS {
-		binaryExp.T = binaryExp.Right.Type() // array concatenation e.g. [] + [1 2]
+	if expType != nil && expType.Name == ARRAY && binaryExp.Op == OP_PLUS {
+		// array concatenation takes the more specific of two matching
+		// types, e.g. [] + [1 2] or [[]] + [[1]]
+		binaryExp.T = mergeMatchingTypes(expType, binaryExp.Right.Type())
 	}
 	if binaryExp.T != nil {
-		binaryExp.T = fixedType(binaryExp.T)
+		// a binary expression is not a literal: a remaining empty literal
+		// type, e.g. [[]] * 2, cannot be converted later on. Only [] + []
+		// and [] * n stay untyped arrays.
+		t := binaryExp.T
+		if t != EMPTY_ARRAY {
+			t = t.infer()
+		}
+		binaryExp.T = fixedType(t)
 	}
 	p.validateBinaryType(binaryExp)
 	if p.isWSS() {
